@@ -216,11 +216,14 @@ class SymEx:
                 return ('const', c['v'], c['ty'])
             if isinstance(c.get('promoted'), int) and not isinstance(c.get('promoted'), bool) and self.F is not None and c.get('def'):
                 key = (c['def'], c['promoted'])
-                if key not in _PROM_CACHE:
-                    _PROM_CACHE[key] = None  # recursion guard
-                    _PROM_CACHE[key] = self.F.promoted_value(c['def'], c['promoted'])
-                if _PROM_CACHE[key] is not None:
-                    return _PROM_CACHE[key]
+                # (cached per Facts object: the self-tests load several trees into one process, and a promoted constant is
+                # exactly what a one-token mutation changes)
+                cache = self.F.__dict__.setdefault('_prom_cache', {})
+                if key not in cache:
+                    cache[key] = None  # recursion guard
+                    cache[key] = self.F.promoted_value(c['def'], c['promoted'])
+                if cache[key] is not None:
+                    return cache[key]
             return ('constx', c.get('def') or c.get('s'), c['ty'])
         p = op_place(op)
         if p is None:
